@@ -36,6 +36,18 @@ Definition do_wrap (t : tree) : list (text sty) :=
   wrap sty sty_eqb sty_null sty_add (tFix (tNth t 0) (tNth t 1)) (tText (tNth t 2))
        (tZ (tNth t 3)) (tZ (tNth t 4)) (tZ (tNth t 5)) (tZ (tNth t 6)) (tB (tNth t 7)).
 
+(* Text.wrap must not mutate its receiver (aliasing tie: the functional model cannot exhibit sharing, so the
+   harness wraps the SAME object several times and compares the receiver with the unchanged model text) *)
+Definition span_tok_eqb (a b : span sty) : bool := span_eqb sty sty_eqb a b.
+Fixpoint spans_eqb (a b : list (span sty)) : bool :=
+  match a, b with
+  | [], [] => true
+  | x :: a', y :: b' => span_tok_eqb x y && spans_eqb a' b'
+  | _, _ => false
+  end.
+Definition text_unchanged_b (a b : text sty) : bool :=
+  str_eqb (plain a) (plain b) && spans_eqb (spans a) (spans b) && sty_eqb (base a) (base b).
+
 Definition ops : list (string * (tree -> tree)) := [
   ("is_space_range", fun t =>
       let lo := tZ (tNth t 0) in
@@ -56,6 +68,12 @@ Definition ops : list (string * (tree -> tree)) := [
   ("rstrip_end", fun t => ofText (rstrip_end sty (tZ (tNth t 1)) (tText (tNth t 0))));
   ("wrap", fun t => ofList ofStyledLine (do_wrap t));
   ("wrap_raw", fun t => ofList ofText (do_wrap t));
+  ("wrap_seq", fun t =>   (* [fix_order, fix_pad, text, [[width, justify, overflow, tab_size, no_wrap] ...]] *)
+      ofList (fun c => L [ofList ofStyledLine
+                            (do_wrap (L [tNth t 0; tNth t 1; tNth t 2; tNth c 0; tNth c 1; tNth c 2; tNth c 3; tNth c 4]));
+                          ofText (tText (tNth t 2))])
+             (tL (tNth t 3)));
+  ("spec.receiver_unchanged", fun t => ofB (text_unchanged_b (tText (tNth t 0)) (tText (tNth t 1))));
   (* ---- spec-level checkers on (implementation) outputs ---- *)
   ("spec.same_nonspace", fun t =>   (* [src plain, [out plain ...]] *)
       ofB (same_nonspace_b (tStr (tNth t 0)) (tList tStr (tNth t 1))));
